@@ -1,3 +1,3 @@
 From Coq Require Import Extraction ExtrOcamlBasic.
-From TatsuV Require Import Base.PyStr Engine.Value Engine.Syntax Engine.Input Engine.Engine Engine.Calls Engine.Semantics.
-Extraction "engine.ml" nums_witness parse_with pparse_with rule_optimized act_of optimized next_token match_token.
+From TatsuV Require Import Base.PyStr Engine.Value Engine.Syntax Engine.Input Engine.Engine Engine.Calls Engine.Semantics Engine.Config.
+Extraction "engine.ml" nums_witness parse_with pparse_with rule_optimized act_of optimized next_token match_token effective.
